@@ -56,6 +56,18 @@ Theorem C13_inquery_write_safe : forall H w local ps alg infos wp b t,
 Proof. exact inquery_write_safe. Qed.
 Print Assumptions C13_inquery_write_safe.
 
+(* the same for the single-file route when the caller supplied the stat information (hash_file(..., info=i),
+   index.build.build_entry): the row is saved under the SUPPLIED info, so a replacement of the file between
+   the read and state.save is a write after the query.  (ex_savetime_single_refuted: a re-stat at save time
+   would be a stale hit.  Without supplied info state.save must stat after the read: outside these routes.) *)
+Theorem C13_inquery_write_safe_single : forall H w local p alg i b t,
+  Inv H w -> tick_ok H w (QHashFileW local p alg i b t) ->
+  let w' := fst (step H w (QHashFileW local p alg i b t)) in
+  w' = exec H w [QHashFile local p alg (Some i); Write p b t] /\ Inv H w' /\
+  forall h, Ticks H w' h -> Forall (fun wo => out_ok H (fst wo) (snd wo)) (run H w' h).
+Proof. exact inquery_write_safe_single. Qed.
+Print Assumptions C13_inquery_write_safe_single.
+
 (* the executable hypothesis the correspondence evaluates on real histories implies the Prop one *)
 Theorem C13_ticks_b_sound : forall H h w, ticks_b H w h = true -> Ticks H w h.
 Proof. exact ticks_b_sound. Qed.
